@@ -80,7 +80,7 @@ impl Prop for C08 {
             prop::sample::select(vec![0usize, 1024, 10 * 1024 * 1024, 12 * 1024 * 1024]),
             any::<bool>(),
             prop::sample::select(vec![1usize, 2, 5]),
-            40u32..80,
+            40u32..tier.pick(80, 300),
             sizes,
             1u16..500,
         )
@@ -106,7 +106,7 @@ impl Prop for C08 {
 
     fn rule(&self) -> String {
         "case = long insert stream with every entry <= budget/4 x (budget T: hooked 256 B..16 KiB, or the public dump_threshold \
-         in {0, 1 KiB, 10 MiB, 12 MiB} -> effective max(T, 10 MiB) with 40..80 MiB inserted) x realloc on/off x max_nb_chunks. \
+         in {0, 1 KiB, 10 MiB, 12 MiB} -> effective max(T, 10 MiB) with 40..80 MiB (thorough: up to 300 MiB) inserted) x realloc on/off x max_nb_chunks. \
          Oracle after EVERY insert, with an instrumented chunk creator: key+value bytes inserted since the last insert during \
          which create() was called (that insert's entry opening the new epoch) <= 2T (realloc) or <= T (no realloc); live \
          chunks <= max_nb_chunks + 2 at every create, after every insert and after the final flush; spilled data implies \
